@@ -154,27 +154,8 @@ func setup(e *emitter, bc *bcase, rr *recRep) (gmars.ReportingSimulator, []gmars
 		w, _ := sim.AddWarrior(&gmars.WarriorData{Code: bc.ws[i].code, Start: bc.ws[i].start})
 		ws = append(ws, w)
 	}
-	for i := range bc.ws {
-		rr.reps = rr.reps[:0]
-		var serr error
-		panicked := func() (p bool) {
-			defer func() {
-				if recover() != nil {
-					p = true
-				}
-			}()
-			serr = sim.SpawnWarrior(i, gmars.Address(bc.ws[i].off))
-			return false
-		}()
-		if panicked {
-			e.rec(2, int64(i), 2)
-			return nil, nil, false
-		}
-		if serr != nil {
-			e.rec(2, int64(i), 1)
-		} else {
-			e.rec(encReports([]int64{2, int64(i), 0}, rr.reps)...)
-		}
+	if !spawnAll(e, bc, sim, rr) {
+		return nil, nil, false
 	}
 	return sim, ws, true
 }
@@ -204,41 +185,19 @@ func runRot(e *emitter, c []int64) {
 	runBattle(e, d)
 }
 
-func runBattle(e *emitter, c []int64) {
-	bc, ok := rdBcase(c)
-	if !ok {
-		e.rec(0)
-		return
-	}
+// stepped mirrors Codec.stepped: per-cycle records, final observables, optional dump.
+// Returns false when a cycle panicked (nothing is observed after a panic).
+func stepped(e *emitter, bc *bcase, sim gmars.ReportingSimulator, ws []gmars.Warrior, rr *recRep) bool {
 	fl := bc.flags
-	rr := &recRep{}
-	sim, ws, ok := setup(e, bc, rr)
-	if !ok {
-		return
-	}
-	var rec *gmars.StateRecorder
-	if fl&32 != 0 {
-		rec = bc.recorder
-	}
 	for k := 0; k < bc.maxsteps; k++ {
 		if finished(sim) {
 			break
 		}
 		rr.reps = rr.reps[:0]
 		var ret int
-		panicked := func() (p bool) {
-			defer func() {
-				if recover() != nil {
-					p = true
-				}
-			}()
-			ret = sim.RunCycle()
-			return false
-		}()
-		if panicked {
-			// the state after a panic is not observed
+		if guard(func() { ret = sim.RunCycle() }) {
 			e.rec(9, 1)
-			return
+			return false
 		}
 		e.rec(observe([]int64{3, int64(ret)}, sim, ws, fl&4 != 0)...)
 		if fl&1 != 0 {
@@ -252,15 +211,64 @@ func runBattle(e *emitter, c []int64) {
 	if fl&8 != 0 {
 		e.rec(dumpCore([]int64{6}, sim)...)
 	}
-	if rec != nil {
+	return true
+}
+
+func spawnAll(e *emitter, bc *bcase, sim gmars.ReportingSimulator, rr *recRep) bool {
+	for i := range bc.ws {
+		rr.reps = rr.reps[:0]
+		var serr error
+		if guard(func() { serr = sim.SpawnWarrior(i, gmars.Address(bc.ws[i].off)) }) {
+			e.rec(2, int64(i), 2)
+			return false
+		}
+		if serr != nil {
+			e.rec(2, int64(i), 1)
+		} else {
+			e.rec(encReports([]int64{2, int64(i), 0}, rr.reps)...)
+		}
+	}
+	return true
+}
+
+func runBattle(e *emitter, c []int64) {
+	bc, ok := rdBcase(c)
+	if !ok {
+		e.rec(0)
+		return
+	}
+	fl := bc.flags
+	rr := &recRep{}
+	sim, ws, ok := setup(e, bc, rr)
+	if !ok {
+		return
+	}
+	if !stepped(e, bc, sim, ws, rr) {
+		return
+	}
+	if bc.recorder != nil {
 		out := []int64{13}
 		if !guard(func() {
 			for a := gmars.Address(0); a < sim.CoreSize(); a++ {
-				st, col := rec.GetMemState(a)
+				st, col := bc.recorder.GetMemState(a)
 				out = append(out, int64(st), int64(col))
 			}
 		}) {
 			e.rec(out...)
+		}
+	}
+	if fl&64 != 0 {
+		// a second battle on the same simulator after Reset and re-spawn
+		e.rec(12)
+		if guard(func() { sim.Reset() }) {
+			e.rec(9, 2)
+			return
+		}
+		if !spawnAll(e, bc, sim, rr) {
+			return
+		}
+		if !stepped(e, bc, sim, ws, rr) {
+			return
 		}
 	}
 	if fl&2 != 0 {
@@ -271,16 +279,7 @@ func runBattle(e *emitter, c []int64) {
 			return
 		}
 		var res []bool
-		panicked := func() (p bool) {
-			defer func() {
-				if recover() != nil {
-					p = true
-				}
-			}()
-			res = sim2.Run()
-			return false
-		}()
-		if panicked {
+		if guard(func() { res = sim2.Run() }) {
 			e.rec(7, 2)
 			return
 		}
